@@ -196,6 +196,13 @@ Section Codec.
                   else sv_disk s in
       Ok (mk_saver (sv_md s) disk files metas false (sv_final s)).
 
+  (* the chunks of a forked saver are saved by child processes in some order of chunk numbers *)
+  Fixpoint save_children (cfg : save_cfg) (s : saver) (jobs : list (Z * chunk)) : res saver :=
+    match jobs with
+    | [] => Ok s
+    | (i, c) :: rest => do s' <- save_in_child cfg s c i; save_children cfg s' rest
+    end.
+
   Definition ci_start_of (l : list chunk_info) : option Z :=
     match l with [] => None | ci :: _ => ci_start ci end.
   Definition ci_end_of (l : list chunk_info) : option Z :=
